@@ -158,10 +158,69 @@ def run(chk):
             ps = [[1, 0, 0], [2, 0, 0], [2, 1, 0], [2, 2, 0], [2, 3, 0], [5, 0, 0], [3, gm["compositions"][0], 2]]
             i = cs.p3(slot, pos, d, ps)
             plan.append((i, w, wv, f, m, cm, vm, gm, ip, d))
+    # plume temperature models: uniform and Gaussian (centerline temperature and sigma interpolated between the depth nodes)
+    import c04
+    plume_plan = []
+    for wi in range(20 if quick else 300):
+        w = {"version": "1.1"}
+        g.globals(w)
+        w.pop("force surface temperature", None)
+        wv = {"Tp": w.get("potential mantle temperature", 1600), "alpha": w.get("thermal expansion coefficient", 3.5e-5),
+              "cp": w.get("specific heat", 1250), "kappa": w.get("thermal diffusivity", 0.804e-6),
+              "g": w.get("gravity model", {}).get("magnitude", 9.81)}
+        f = g.plume("p", False)
+        ds = f["cross section depths"]
+        dmin = f.get("min depth", 0.0)
+        dmax = f.get("max depth", ds[-1] + 1e5)
+        k = rng.randint(2, 4)
+        gd = sorted(set(float(round(rng.uniform(dmin, dmax))) for _ in range(k)))
+        m = {"model": "gaussian", "depths": gd, "centerline temperatures": [rng.choice([float(round(rng.uniform(300, 2000), 1)), -1]) for _ in gd],
+             "gaussian sigmas": [round(rng.uniform(0.1, 0.9), 3) for _ in gd]}
+        f["temperature models"] = [m]
+        for kk in ("composition models", "velocity models", "grains models"):
+            f.pop(kk, None)
+        w["features"] = [f]
+        slot = cs.add_world(w)
+        for qi in range(12):
+            d = rng.uniform(max(dmin, ds[0]), min(dmax, ds[-1] + 5e4)) if qi % 3 else rng.choice(gd)
+            j = rng.randrange(len(ds))
+            a = f["semi-major axis"][j] * math.sqrt(1 - f["eccentricity"][j] ** 2)
+            x = f["coordinates"][j][0] + rng.uniform(-0.6, 0.6) * a
+            y = f["coordinates"][j][1] + rng.uniform(-0.6, 0.6) * a
+            i = cs.p3(slot, (x, y, TOP - d), d, [[1, 0, 0], [4, 0, 0]])
+            plume_plan.append((i, wv, f, m, x, y, d))
     impl, model = cs.run()
     chk.evaluations = len(impl)
     bad = chk.correspond(impl, model, cs, max_ulp=0)
     viol = []
+    for (i, wv, f, m, x, y, d) in plume_plan:
+        v = common.parse_vec(impl[i])
+        if v is None or v[1] < 0:
+            continue
+        ff = dict(f)
+        ff["_want_v"] = True
+        r2 = c04.plume_spec(ff, False, x, y, d)
+        if not isinstance(r2, float):
+            continue
+        gd, tc, sg = m["depths"], m["centerline temperatures"], m["gaussian sigmas"]
+        if d < gd[0]:
+            T0, S0 = tc[0], sg[0]
+        elif d >= gd[-1]:
+            T0, S0 = tc[-1], sg[-1]
+        else:
+            j = max(k for k in range(len(gd)) if gd[k] <= d)
+            fr = (d - gd[j]) / (gd[j + 1] - gd[j])
+            T0 = (1 - fr) * tc[j] + fr * tc[j + 1]
+            S0 = (1 - fr) * sg[j] + fr * sg[j + 1]
+        if T0 < 0:
+            T0 = adiabat(wv, d)
+        exp = T0 * math.exp(-r2 / (2 * S0 * S0))
+        chk.nontriv((i,))
+        if abs(v[0] - exp) > 1e-7 * max(1.0, abs(exp)):
+            dsc = cs.describe(i)
+            dsc["expected"], dsc["got"] = exp, v[0]
+            viol.append(("plume Gaussian temperature returns %.10g, the documented closed form (centerline temperature and sigma "
+                         "interpolated between the depth nodes) gives %.10g" % (v[0], exp), dsc))
     per_model = {}
     for (i, w, wv, f, m, cm, vm, gm, ip, d) in plan:
         v = common.parse_vec(impl[i])
